@@ -151,11 +151,11 @@ fn emit_through<E: Emitter, F: emit::Filter, C: emit::Ctxt + Copy, T: emit::Cloc
 /// statically typed `Runtime` (even indices) or through the type-erased runtime of an initialised
 /// `AmbientSlot` (odd indices), both with the sink as emitter, a `ThreadLocalCtxt` holding the
 /// event's ambient frames and a clock reading `me.clock`.
-fn deliver<E: Emitter + Send + Sync + 'static>(sink: std::sync::Arc<E>, via_rt: bool, events: &[(u64, ModelEvent)], mut before: impl FnMut(u64), mut after: impl FnMut(usize, Result<(), String>)) {
+fn deliver<E: Emitter + Send + Sync + 'static>(sink: std::sync::Arc<E>, via_rt: bool, events: &[(u64, ModelEvent)], mut before: impl FnMut(u64), mut after: impl FnMut(usize, Result<(), String>, Vec<ModelEvent>)) {
     if !via_rt {
         for (n, (idx, me)) in events.iter().enumerate() {
             before(*idx);
-            after(n, catch(|| me.with_event(|evt| sink.emit(evt))));
+            after(n, catch(|| me.with_event(|evt| sink.emit(evt))), Vec::new());
         }
         return;
     }
@@ -168,8 +168,16 @@ fn deliver<E: Emitter + Send + Sync + 'static>(sink: std::sync::Arc<E>, via_rt: 
     for (n, (idx, me)) in events.iter().enumerate() {
         clock.set(me.clock.unwrap_or(BASE_NANOS));
         before(*idx);
-        let res = if idx % 2 == 0 { catch(|| emit_through(&stat, me, (idx / 2) % 2)) } else { catch(|| emit_through(ambient, me, (idx / 2) % 2)) };
-        after(n, res);
+        // re-entrant values emit their inner events through the very runtime (and sink) that is
+        // encoding the outer event, on this thread
+        let res = if idx % 2 == 0 {
+            let reenter = |inner: &ModelEvent| inner.with_event(|evt| stat.emit(evt));
+            catch(|| with_reenter(&reenter, || emit_through(&stat, me, (idx / 2) % 2)))
+        } else {
+            let reenter = |inner: &ModelEvent| inner.with_event(|evt| ambient.emit(evt));
+            catch(|| with_reenter(&reenter, || emit_through(ambient, me, (idx / 2) % 2)))
+        };
+        after(n, res, take_inner_log());
     }
 }
 
@@ -292,7 +300,25 @@ fn run_file(cx: &mut Ctx, dir: &str, events: &[(u64, ModelEvent)], via_rt: bool)
     let set = std::sync::Arc::new(emit_file::set(format!("{}/log.txt", sub)).spawn());
     let mut emitted: Vec<usize> = Vec::new();
     let mut results: Vec<Result<(), String>> = Vec::new();
-    deliver(set.clone(), via_rt, events, |_| {}, |_, res| results.push(res));
+    // inner events of re-entrant values reach the file before the event that was being encoded
+    let mut flat: Vec<(u64, ModelEvent)> = Vec::new();
+    deliver(set.clone(), via_rt, events, |_| {}, |n, res, inner| {
+        let (idx, me) = &events[n];
+        if me.props.iter().any(|p| p.cap.is_noisy()) && res.is_ok() {
+            cx.r.observe("file:reentrant-outer-events", 1);
+            cx.r.observe("file:reentrant-inner-events", inner.len() as u64);
+            if inner.is_empty() {
+                cx.violation(me, *idx, "C13:file:reentrant:value-not-encoded", "the event was accepted but its re-entrant value was never encoded".into());
+            }
+        }
+        for i in inner {
+            flat.push((*idx, i));
+            results.push(Ok(()));
+        }
+        flat.push((*idx, me.clone()));
+        results.push(res);
+    });
+    let events = &flat[..];
     for (n, res) in results.into_iter().enumerate() {
         let (idx, me) = &events[n];
         cx.r.observe("file:events", 1);
@@ -939,6 +965,7 @@ fn find_records<'a>(d: &'a Decoded, vid: &str) -> Found<'a> {
 fn run_otlp(cx: &mut Ctx, collector: &Collector, batch: &str, events: &[(u64, ModelEvent)], dump: bool, via_rt: bool) {
     let mut decoded: BTreeMap<&'static str, Decoded> = BTreeMap::new();
     let mut panicked: BTreeMap<(&'static str, usize), String> = BTreeMap::new();
+    let mut inner_events: BTreeMap<(&'static str, usize), Vec<ModelEvent>> = BTreeMap::new();
     for enc in [Enc::Proto, Enc::Json] {
         let base = format!("/{}/{}", batch, enc.name());
         let resource = [("service.name", emit::Value::from("c13")), ("run", emit::Value::from(13))];
@@ -958,10 +985,19 @@ fn run_otlp(cx: &mut Ctx, collector: &Collector, batch: &str, events: &[(u64, Mo
         };
         let otlp = std::sync::Arc::new(otlp);
         cx.r.observe(&format!("otlp:{}:events", enc.name()), events.len() as u64);
-        deliver(otlp.clone(), via_rt, events, |_| {}, |n, res| {
+        deliver(otlp.clone(), via_rt, events, |_| {}, |n, res, inner| {
+            let (idx, me) = &events[n];
+            if me.props.iter().any(|p| p.cap.is_noisy()) && res.is_ok() {
+                cx.r.observe(&format!("otlp:{}:reentrant-outer-events", enc.name()), 1);
+                cx.r.observe(&format!("otlp:{}:reentrant-inner-events", enc.name()), inner.len() as u64);
+                if inner.is_empty() {
+                    cx.violation(me, *idx, &format!("C13:otlp:{}:reentrant:value-not-encoded", enc.name()), "the event was accepted but its re-entrant value was never encoded".into());
+                }
+            }
             if let Err(p) = res {
                 panicked.insert((enc.name(), n), p);
             }
+            inner_events.insert((enc.name(), n), inner);
         });
         if !otlp.blocking_flush(Duration::from_secs(30)) {
             cx.r.inconclusive(format!("emit_otlp ({}) did not flush within 30 s", enc.name()));
@@ -1008,6 +1044,28 @@ fn run_otlp(cx: &mut Ctx, collector: &Collector, batch: &str, events: &[(u64, Mo
         decoded.insert(enc.name(), d);
     }
 
+    // the inner events of re-entrant values: exported like any other event
+    for ((enc_name, n), inners) in &inner_events {
+        let enc = if *enc_name == "proto" { Enc::Proto } else { Enc::Json };
+        let idx = events[*n].0;
+        for inner in inners {
+            let f = find_records(&decoded[enc_name], &inner.vid);
+            let total = f.logs.len() + f.spans.len() + f.metrics.len();
+            if total != 1 {
+                cx.violation(inner, idx, &format!("C13:otlp:{}:reentrant:inner-record-count:{}", enc_name, if total == 0 { "missing" } else { "duplicated" }), format!("{}: the event emitted while another event was being encoded is found in {} records", enc_name, total));
+                continue;
+            }
+            for r in &f.logs {
+                check_log(cx, inner, idx, enc, r);
+            }
+            for r in &f.spans {
+                check_span(cx, inner, idx, enc, r);
+            }
+            for r in &f.metrics {
+                check_metric(cx, inner, idx, enc, r);
+            }
+        }
+    }
     for (n, (idx, me)) in events.iter().enumerate() {
         let compound: Vec<&str> = me.compound_key_shapes().into_iter().filter(|s| OTLP_PANIC_SHAPES.contains(s)).collect();
         let mut per_enc: Vec<(Enc, Found)> = Vec::new();
@@ -1078,9 +1136,14 @@ fn term_child(seed: u64, section: &str, from: u64, to: u64, compound: bool) {
         section == "rt",
         &events,
         |idx| println!("@@BEGIN {}", idx),
-        |n, res| match res {
-            Ok(()) => println!("\n@@END {} ok", events[n].0),
-            Err(p) => println!("\n@@END {} panic {}", events[n].0, p.replace('\n', " ")),
+        |n, res, inner| {
+            match res {
+                Ok(()) => println!("\n@@END {} ok", events[n].0),
+                Err(p) => println!("\n@@END {} panic {}", events[n].0, p.replace('\n', " ")),
+            }
+            for i in inner {
+                println!("@@INNERMSG {} {}", events[n].0, i.msg_text());
+            }
         },
     );
 }
@@ -1099,10 +1162,17 @@ fn run_term(cx: &mut Ctx, events: &[(u64, ModelEvent)], from: u64, to: u64, comp
     };
     let text = String::from_utf8_lossy(&out.stdout).into_owned();
     let mut blocks: BTreeMap<u64, (String, String)> = BTreeMap::new();
+    let mut inner_msgs: BTreeMap<u64, Vec<String>> = BTreeMap::new();
     let mut cur: Option<(u64, String)> = None;
     for line in text.split('\n') {
         if let Some(rest) = line.strip_prefix("@@BEGIN ") {
             cur = rest.trim().parse().ok().map(|i| (i, String::new()));
+        } else if let Some(rest) = line.strip_prefix("@@INNERMSG ") {
+            if let Some((i, msg)) = rest.split_once(' ') {
+                if let Ok(i) = i.parse::<u64>() {
+                    inner_msgs.entry(i).or_default().push(msg.to_string());
+                }
+            }
         } else if let Some(rest) = line.strip_prefix("@@END ") {
             if let Some((i, body)) = cur.take() {
                 let status = rest.splitn(2, ' ').nth(1).unwrap_or("").to_string();
@@ -1128,6 +1198,21 @@ fn run_term(cx: &mut Ctx, events: &[(u64, ModelEvent)], from: u64, to: u64, comp
         if status != "ok" {
             cx.violation(me, *idx, if me.wild.is_some() { "C13:term:panic:wild-extent" } else { "C13:term:panic" }, format!("emit_term panicked on the caller thread: {}", status));
             continue;
+        }
+        // a re-entrant value in a template hole emits while the terminal writer renders the message
+        let noisy_hole = me.parts.iter().any(|(hole, k)| *hole && me.first(k).map_or(false, |p| p.cap.is_noisy()));
+        let inners = inner_msgs.get(idx).cloned().unwrap_or_default();
+        if noisy_hole {
+            cx.r.observe("term:reentrant-outer-events", 1);
+            cx.r.observe("term:reentrant-inner-events", inners.len() as u64);
+            if inners.is_empty() {
+                cx.violation(me, *idx, "C13:term:reentrant:value-not-encoded", "the message holds a re-entrant value but it was never rendered".into());
+            }
+        }
+        for m in &inners {
+            if !body.contains(m.as_str()) {
+                cx.violation(me, *idx, "C13:term:reentrant:inner-message-missing", format!("terminal output {:?} does not contain the message {:?} of the event emitted while rendering", clip(body), m));
+            }
         }
         let msg = me.msg_text();
         if !body.contains(&msg) {
